@@ -12,7 +12,7 @@ from .pool import run_pool
 from .prng import Rng
 
 VERIF = os.path.dirname(os.path.dirname(os.path.abspath(__file__)))
-OUT = os.path.join(VERIF, "out")
+OUT = os.environ.get("VERIF_OUT_DIR") or os.path.join(VERIF, "out")
 KNOWN = os.path.join(VERIF, "known_findings.json")
 
 
@@ -265,11 +265,12 @@ class Runner:
             "property_id": self.prop, "tier": self.tier, "seed": self.seed, "level": self.mod.LEVEL, "coverage": cov,
             "assumptions": getattr(self.mod, "ASSUMPTIONS", []), "wall_s": round(wall, 2), "violations": nviol,
         }
-        os.makedirs(os.path.join(VERIF, "evidence"), exist_ok=True)
-        tmp = os.path.join(VERIF, "evidence", ".%s.tmp" % self.prop)
+        evd = os.environ.get("VERIF_EVIDENCE_DIR") or os.path.join(VERIF, "evidence")
+        os.makedirs(evd, exist_ok=True)
+        tmp = os.path.join(evd, ".%s.tmp" % self.prop)
         with open(tmp, "w") as f:
             json.dump(doc, f, indent=1, sort_keys=True, default=str)
-        os.replace(tmp, os.path.join(VERIF, "evidence", "%s.json" % self.prop))
+        os.replace(tmp, os.path.join(evd, "%s.json" % self.prop))
 
 
 _PARENT_SCRATCH = None
@@ -319,6 +320,11 @@ def shrink(mod, case, fp, max_rounds=60, time_budget=240.0):
                 cur, curv = cand, v
                 progress = True
                 break
+    if curv.get("sub") is not None and hasattr(mod, "pin"):
+        cand = mod.pin(cur, curv["sub"])
+        v = still_fails(cand)
+        if v is not None:
+            cur, curv = cand, v
     return cur, curv
 
 
